@@ -790,5 +790,31 @@ def rule_r9(ctx) -> RuleResult:
     return rr
 
 
+def rule_r10(ctx) -> RuleResult:
+    """Whether `{{name}}` is a parser function / magic variable or a template is decided by looking the canonicalised name up in
+    the registry.  Function names (`#if`, `lc`) are case-insensitive and registered in lower case; magic variables (`PAGENAME`)
+    are case-sensitive and registered in upper case.  The canonicalisation may therefore lower-case a name that is not in the
+    registry, but it may never map a name *to* another case that is: `{{pagename}}` is a call of Template:pagename, which has
+    to be checked against the selection, handed to template_fn and re-emitted under its own name (seed C13-9B:
+    `if name.upper() in PARSER_FUNCTIONS: return name.upper()`)."""
+    rr = RuleResult("C13.R10", "name canonicalisation never turns a template name into a registered magic variable", min_instances=1)
+    dotted = "core.Wtp._canonicalize_parserfn_name"
+    fn = ctx.fn(dotted)
+    raising = [c for c in walk_no_nested(fn) if isinstance(c, ast.Call) and isinstance(c.func, ast.Attribute)
+               and c.func.attr in ("upper", "title", "capitalize", "swapcase") and not c.args]
+    rets = [r for r in walk_no_nested(fn) if isinstance(r, ast.Return) and r.value is not None]
+    if not rets:
+        raise AnalysisError("_canonicalize_parserfn_name: no return found")
+    if raising:
+        for c in raising:
+            rr.bad(Finding("C13.R10", X.CORE, dotted, unparse(c)[:50],
+                           "the name is mapped to another case (`{}`) on the way to the registry lookup: a template whose name spells a "
+                           "magic variable in different case is expanded as the variable -- never checked against the selection, never "
+                           "handed to template_fn, and re-emitted under the variable's name".format(unparse(c)[:40]), c.lineno))
+    else:
+        rr.ok(dotted, "only lower-casing / white-space normalisation ({} returns)".format(len(rets)))
+    return rr
+
+
 def run(ctx) -> list:
-    return [rule_r1(ctx), rule_r2(ctx), rule_r3(ctx), rule_r4(ctx), rule_r5(ctx), rule_r6(ctx), rule_r7(ctx), rule_r8(ctx), rule_r9(ctx)]
+    return [rule_r1(ctx), rule_r2(ctx), rule_r3(ctx), rule_r4(ctx), rule_r5(ctx), rule_r6(ctx), rule_r7(ctx), rule_r8(ctx), rule_r9(ctx), rule_r10(ctx)]
